@@ -172,7 +172,12 @@ fn case() -> impl Strategy<Value = Case> {
         )
             .prop_map(|(trace, span, form)| Some(Incoming { trace: ((trace >> 64) as u64, trace as u64), span, form })),
     ];
-    let rng = prop_oneof![12 => any::<u64>().prop_map(RngKind::Counter), 1 => Just(RngKind::Empty)];
+    let rng = prop_oneof![
+        9 => any::<u64>().prop_map(RngKind::Counter),
+        // (started far away from the small incoming ids the generator likes, so that only the SOURCE decides distinctness)
+        3 => (0u64..100_000).prop_map(|k| RngKind::Sequential((1u64 << 40) + 2 * k)),
+        1 => Just(RngKind::Empty),
+    ];
     (rng, incoming, prop::collection::vec(any::<bool>(), 0..4), panic_prologue(), body(7), ctxt_kind()).prop_map(|(rng, incoming, captures, prologue, mut items, ctxt)| {
         if let Some(p) = prologue {
             items.insert(0, p);
@@ -191,6 +196,7 @@ fn case() -> impl Strategy<Value = Case> {
 fn main() {
     vcore::run("C04", Level::Exploration, RULE, &ASSUMPTIONS, |s| {
         // DESIGN: each >= 5 % of the cases; the minima are ~1 % of the quick tier
+        s.require("sequential-rng", 1500);
         for class in ["depth>=3", "disabled-with-enabled-descendant", "async-join", "thread-hop", "string-ids"] {
             s.require(class, 200);
         }
